@@ -99,16 +99,27 @@ static std::string padding(uint64_t X) {   // a byte string item whose encoding 
 
 struct Check { std::string key, what; };
 
+// "poison" calls: a decoder call that fails part-way (truncated or malformed input) on this thread. The decoder has to be stateless across
+// calls and objects, so every item must decode the same right after one of them.
+static const int NPOISON = 6;
+static void poison(int k) {
+    static const char* IN[] = {"", "\x83\x01", "\x9f\x01\x1c", "\x5f\x41", "\xbf\x01\x82\x01", "\xa2\x01\x9f\x1f", "\x98\x19\x01\x02"};
+    static const size_t LEN[] = {0, 2, 3, 2, 4, 4, 4};
+    if (k <= 0 || k > NPOISON) return;
+    std::istringstream is(std::string(IN[k], LEN[k])); CdnsDecoder d(is);
+    try { if (k == 3) d.read_bytestring(); else d.skip_item(); } catch (std::exception&) {}
+}
+
 // run the decoder on stream = padding(X) + item + sentinel; compare against ground truth
-static void run_item(const Item& it, const std::string& enc, uint64_t X, Result& R, std::vector<Check>& V) {
+static void run_item(const Item& it, const std::string& enc, uint64_t X, Result& R, std::vector<Check>& V, int pk = 0) {
     std::string pad = padding(X);
     std::string stream = pad + enc + "\x18\x2a";
     auto consume_pad = [&](CdnsDecoder& d) { if (X == 0) return; if (X < 4) { for (uint64_t i = 0; i < X; i++) d.read_unsigned(); return; } if (X == 25 || X == 258) d.read_unsigned(); d.read_bytestring(); };
     const Node& n = it.n;
-    auto fail = [&](const std::string& op, const std::string& w) { V.push_back({op + "|" + it.cls, op + " on " + it.cls + " at offset " + std::to_string(X) + ": " + w}); };
+    auto fail = [&](const std::string& op, const std::string& w) { V.push_back({(pk ? "stateful-after-failed-call|" : "") + op + "|" + it.cls, op + " on " + it.cls + " at offset " + std::to_string(X) + (pk ? " right after a decoder call that failed part-way (poison " + std::to_string(pk) + ")" : "") + ": " + w}); };
     // (1) peek + matching read
     {
-        std::istringstream is(stream); CdnsDecoder d(is);
+        poison(pk); std::istringstream is(stream); CdnsDecoder d(is);
         try {
             consume_pad(d);
             CborType pt = d.peek_type();
@@ -137,7 +148,7 @@ static void run_item(const Item& it, const std::string& enc, uint64_t X, Result&
     }
     // (2) skip then sentinel
     {
-        std::istringstream is(stream); CdnsDecoder d(is);
+        poison(pk); std::istringstream is(stream); CdnsDecoder d(is);
         try {
             consume_pad(d); d.skip_item();
             uint64_t s = d.read_unsigned();
@@ -146,7 +157,7 @@ static void run_item(const Item& it, const std::string& enc, uint64_t X, Result&
     }
     // (3) containers: read through read_array with a skipping callback (exercises break detection)
     if (n.major == 4) {
-        std::istringstream is(stream); CdnsDecoder d(is);
+        poison(pk); std::istringstream is(stream); CdnsDecoder d(is);
         try { consume_pad(d); uint64_t cnt = 0; d.read_array([&](CdnsDecoder& dd) { dd.skip_item(); cnt++; });
               if (cnt != n.kids.size()) fail("read_array", "callback ran " + std::to_string(cnt) + " times, expected " + std::to_string(n.kids.size()));
               if (d.read_unsigned() != 42) fail("read_array", "sentinel not next"); }
@@ -184,32 +195,35 @@ int main(int argc, char** argv) {
     if (!a.replay.empty()) {
         // replay: item=<hex>;cls=<cls>;x=<offset>
         std::string s = slurp(a.replay); auto get = [&](const std::string& k) { size_t p = s.find(k + "="); if (p == std::string::npos) return std::string(); size_t e = s.find(';', p); return s.substr(p + k.size() + 1, (e == std::string::npos ? s.size() : e) - p - k.size() - 1); };
-        std::string e = unhex(get("item")); Item it{parse_exact(e), get("cls")}; uint64_t X = strtoull(get("x").c_str(), nullptr, 10);
+        std::string e = unhex(get("item")); Item it{parse_exact(e), get("cls")}; uint64_t X = strtoull(get("x").c_str(), nullptr, 10); int pk = atoi(get("poison").c_str());
         Pool rp(1, 60);
-        rp.run(1, [&](uint64_t, Result& R) { std::vector<Check> V; run_item(it, e, X, R, V); for (auto& v : V) R.violation("gram|" + v.key, v.what, s); },
+        rp.run(1, [&](uint64_t, Result& R) { std::vector<Check> V; run_item(it, e, X, R, V, pk); for (auto& v : V) R.violation("gram|" + v.key, v.what, s); },
                [&](uint64_t, const std::string& d, Result& R) { R.violation("gram|" + crash_key(d), d.substr(0, 1500), s); }, total);
         a.finish(total); return total.viol.empty() ? 0 : 1;
     }
+    // phase 0: every item at every offset in workers that never saw a failing call; phases 1..NPOISON: the first and last offset of every item,
+    // each preceded by failed call k - one set of freshly forked workers per phase, so that a violation replays from its own description
+    for (int pk = 0; pk <= NPOISON; pk++) {
     Pool pool(a.jobs, 120);
     pool.run(items.size(), [&](uint64_t i, Result& R) {
         if (a.expired()) { R.deadline_hit = true; return; }
         const Item& it = items[i]; const std::string& e = encs[i];
         auto xs = offsets_for(it, e, T);
+        if (pk) xs = xs.size() > 1 ? std::vector<uint64_t>{xs.front(), xs.back()} : xs;
         bool any = false;
         for (uint64_t X : xs) {
-            std::string rep = "item=" + (e.size() <= 300 ? hex(e) : hex(e.substr(0, 12)) + "...") + ";cls=" + it.cls + ";x=" + std::to_string(X);
-            if (e.size() > 300) rep = "item=" + hex(e) + ";cls=" + it.cls + ";x=" + std::to_string(X);
+            std::string rep = "item=" + hex(e) + ";cls=" + it.cls + ";x=" + std::to_string(X) + (pk ? ";poison=" + std::to_string(pk) : "");
             set_note(rep.substr(0, 4000));
-            std::vector<Check> V; run_item(it, e, X, R, V);
-            R.count("traces"); R.count("nontrivial");
+            std::vector<Check> V; run_item(it, e, X, R, V, pk);
+            R.count("traces"); R.count("nontrivial"); if (pk) R.count("after_failed_call");
             for (auto& v : V) { R.violation("gram|" + v.key, v.what, rep.size() < 200000 ? rep : rep.substr(0, 200000)); any = true; }
         }
-        R.count("states");
-        R.outcome(it.cls + (any ? ":viol" : ":ok"));
-        if (i % 97 == 5) R.sample("item=" + hex(e.substr(0, 40)) + ";cls=" + it.cls + ";offsets=" + std::to_string(xs.size()));
+        if (!pk) { R.count("states"); R.outcome(it.cls + (any ? ":viol" : ":ok")); }
+        if (!pk && i % 97 == 5) R.sample("item=" + hex(e.substr(0, 40)) + ";cls=" + it.cls + ";offsets=" + std::to_string(xs.size()));
     }, [&](uint64_t i, const std::string& d, Result& R) {
         R.violation("gram|" + crash_key(d), "crash on " + items[i].cls + ": " + d.substr(0, 1500), pool.last_note);
     }, total);
+    }
     total.n["evaluations"] = total.n["traces"];
     total.notes.push_back(std::to_string(items.size()) + " grammar items; offsets: 0 and every split across the 65535*j boundary, j=1,2");
     a.finish(total);
